@@ -9,6 +9,8 @@ from . import mir
 
 VERIF = os.path.dirname(os.path.dirname(os.path.abspath(__file__)))
 KNOWN = os.path.join(VERIF, "known_findings.json")
+# dev sweeps over scratch copies redirect evidence / replay files so that they do not clobber the real ones
+OUT = os.environ.get("VERIF_SCRATCH_OUT") or VERIF
 
 ASSUMPTIONS = [
     "rustc's type checker and MIR construction (mir_built) are faithful to the source",
@@ -138,17 +140,17 @@ class Ctx:
             "wall_s": round(wall, 3),
             "violations": len(fresh),
         }
-        os.makedirs(os.path.join(VERIF, "evidence"), exist_ok=True)
-        with open(os.path.join(VERIF, "evidence", self.prop + ".json"), "w") as fh:
+        os.makedirs(os.path.join(OUT, "evidence"), exist_ok=True)
+        with open(os.path.join(OUT, "evidence", self.prop + ".json"), "w") as fh:
             json.dump(ev, fh, indent=1)
         for k, ent in known_hit:
             print("KNOWN-FINDING: property=%s %s [%s]" % (self.prop, ent.get("what", ""), k))
         if fresh:
-            os.makedirs(os.path.join(VERIF, "replay"), exist_ok=True)
+            os.makedirs(os.path.join(OUT, "replay"), exist_ok=True)
             for v in fresh:
                 k = "%s:%s" % (v["rule"], v["site"])
                 hid = hashlib.sha1(k.encode()).hexdigest()[:10]
-                path = os.path.join(VERIF, "replay", "%s-%s.json" % (self.prop, hid))
+                path = os.path.join(OUT, "replay", "%s-%s.json" % (self.prop, hid))
                 with open(path, "w") as fh:
                     json.dump({"property": self.prop, "key": k, "violation": v,
                                "rule_text": self.rules.get(v["rule"])}, fh, indent=1)
@@ -172,8 +174,8 @@ def _load_known(prop):
 
 def anchor_failure(prop, tier, err, seed=0):
     """fail closed: a missing anchor is reported as a violation with a replay file."""
-    os.makedirs(os.path.join(VERIF, "replay"), exist_ok=True)
-    path = os.path.join(VERIF, "replay", "%s-anchor.json" % prop)
+    os.makedirs(os.path.join(OUT, "replay"), exist_ok=True)
+    path = os.path.join(OUT, "replay", "%s-anchor.json" % prop)
     with open(path, "w") as fh:
         json.dump({"property": prop, "kind": "anchor-missing", "error": str(err)}, fh, indent=1)
     ev = {
@@ -182,8 +184,8 @@ def anchor_failure(prop, tier, err, seed=0):
                      "evaluations": 1, "distinct_nontrivial": 0, "samples": [str(err)]},
         "assumptions": ASSUMPTIONS, "wall_s": 0.0, "violations": 1,
     }
-    os.makedirs(os.path.join(VERIF, "evidence"), exist_ok=True)
-    with open(os.path.join(VERIF, "evidence", prop + ".json"), "w") as fh:
+    os.makedirs(os.path.join(OUT, "evidence"), exist_ok=True)
+    with open(os.path.join(OUT, "evidence", prop + ".json"), "w") as fh:
         json.dump(ev, fh, indent=1)
     print("anchor-missing: %s" % err)
     print("VIOLATION property=%s replay=%s" % (prop, path))
